@@ -278,6 +278,7 @@ def run(ctx, res):
     ip.models["std::io::_print"] = m_print
     ip.primitives[k_stdout[0]] = p_stdout
     idx_var = bv.data_bv("i", 32)
+    induct = {}
     carried = set()
     lbody = facts.bodies[loop_body_key] if loop_body_key else body
     for b_ in loop_blocks:
@@ -315,11 +316,21 @@ def run(ctx, res):
                     continue
                 cur_ = st.mem.get(key_)
                 if isinstance(cur_, Int):
-                    st.mem[key_] = Int(bv.seq_bv("carried_%d" % l_, len(cur_.bits)))
+                    snap.setdefault("carried0", {})[l_] = cur_.bits
+                    if l_ in induct:
+                        # an induction variable (constant step per iteration, learnt in a first pass): x = x0 + step * i
+                        st.mem[key_] = Int(bv.add(cur_.bits, bv.mul(bv.cast(idx_var, len(cur_.bits), False), bv.const(induct[l_] & ((1 << len(cur_.bits)) - 1), len(cur_.bits)))))
+                    else:
+                        st.mem[key_] = Int(bv.seq_bv("carried_%d" % l_, len(cur_.bits)))
             snap["roots"] = (rng_root, vec_root)
             st.add_eff(("loop-head",))
             return "continue"
-        st.add_eff(("back", st.mem[rng_root].fields[0].bits, st.mem[vec_root].data))
+        after_ = {}
+        for l_ in sorted(carried):
+            v_ = st.mem.get(("f", fr.fid, l_))
+            if isinstance(v_, Int):
+                after_[l_] = v_.bits
+        st.add_eff(("back", st.mem[rng_root].fields[0].bits, st.mem[vec_root].data, after_))
         return "stop"
     if header is not None:
         ip.block_hooks[(loop_body_key, header)] = at_header
@@ -330,6 +341,31 @@ def run(ctx, res):
     w0 = bv.const(0x5700, 16)
     # run trapa with the gate inlined; hooks only fire at depth 1, so analyse the gate directly and trapa around it
     outs = ip.run_all(k_mes[0], [Ref(isamod.CPU_ROOT, ())], {isamod.CPU_ROOT: cpu})
+    # induction variables: a loop-carried integer whose value after an iteration is its value before plus a constant, on every
+    # trace, is re-analysed as x0 + step * i instead of an arbitrary value (e.g. a running cursor next to the index)
+    steps = {}
+    for o_ in outs:
+        for e_ in o_.state.eff:
+            if e_[0] == "back" and len(e_) > 3:
+                for l_, bits_ in e_[3].items():
+                    var_ = bv.seq_bv("carried_%d" % l_, len(bits_))
+                    # (canonical BDDs: x + c is recognised by node identity - no subtraction of unrelated vectors)
+                    d_ = None
+                    if tuple(bits_) == tuple(var_):
+                        d_ = 0
+                    else:
+                        for c_ in (1, 2, 4, 8, -1, -2, -4, -8):
+                            if tuple(bv.add(var_, bv.const(c_ & ((1 << len(bits_)) - 1), len(bits_)))) == tuple(bits_):
+                                d_ = c_
+                                break
+                    steps.setdefault(l_, set()).add(d_)
+    learnt = {l_: list(v_)[0] for l_, v_ in steps.items() if len(v_) == 1 and None not in v_ and list(v_)[0] != 0}
+    if learnt and not induct:
+        induct.update(learnt)
+        snap.clear()
+        cpu = I.fresh_cpu()
+        outs = ip.run_all(k_mes[0], [Ref(isamod.CPU_ROOT, ())], {isamod.CPU_ROOT: cpu})
+        res.inventory["induction_variables"] = {str(k_): v_ for k_, v_ in learnt.items()}
     if ip.unknown_callees:
         res.errors.append("unmodelled callees in the MES gate: %r" % ip.unknown_callees)
     if "error" in snap:
